@@ -6,7 +6,11 @@
    with TrieDB().Reference in its leaf callback).
 
      disk  : hash -> references of the blob on disk           (xdb.Database under NodeDatabase.diskdb)
-     cache : hash -> childs() of the dirty cached node         (NodeDatabase.nodes)
+     cache : hash -> dirty cached node                          (NodeDatabase.nodes), with
+               tracked = childs(): the hash children gathered from the collapsed node plus the
+                         external children registered by Reference (only registered when the child
+                         is itself dirty at that moment: "node pulled from disk, skip"),
+               refs    = the references of the blob node.rlp() that a Put writes.
 
    [commit_seq] is NodeDatabase.commit: a post-order walk over the dirty cache which skips hashes
    that are not cached ("previously committed node") and has NO visited set, so a shared subtree is
@@ -18,13 +22,16 @@
    flush when ValueSize >= IdealBatchSize, one final Write); a crash leaves disk + a prefix. *)
 From stdpp Require Import gmap.
 
-Definition hash := N.
-Definition nodes := gmap hash (list hash).
+Notation hash := N (only parsing).
+Notation nodes := (gmap hash (list hash)) (only parsing).
 
-Record store := Store { disk : nodes; cache : nodes }.
+Record dnode := DNode { tracked : list hash; refs : list hash }.
+Notation dirty := (gmap hash dnode) (only parsing).
+
+Record store := Store { disk : nodes; cache : dirty }.
 
 (* NodeDatabase.node(): dirty cache first, then disk *)
-Definition view (s : store) : nodes := cache s ∪ disk s.
+Definition view (s : store) : nodes := (refs <$> cache s) ∪ disk s.
 
 (* ---------- NodeDatabase.commit ---------- *)
 (* for _, child := range node.childs() { db.commit(child, batch) } *)
@@ -35,20 +42,20 @@ Fixpoint commit_list (rec : hash → option (list hash)) (cs : list hash) : opti
   end.
 
 (* [None] = out of fuel (model artefact; excluded by the theorems, see commit_terminates). *)
-Fixpoint commit_seq (fuel : nat) (c : nodes) (h : hash) : option (list hash) :=
+Fixpoint commit_seq (fuel : nat) (c : dirty) (h : hash) : option (list hash) :=
   match c !! h with
   | None => Some []                       (* node, ok := db.nodes[hash]; if !ok { return nil } *)
-  | Some cs =>
+  | Some n =>
     match fuel with
     | O => None
-    | S f => sub ← commit_list (commit_seq f c) cs; Some (sub ++ [h])   (* children, then batch.Put(hash) *)
+    | S f => sub ← commit_list (commit_seq f c) (tracked n); Some (sub ++ [h])   (* childs(), then batch.Put(hash) *)
     end
   end.
 
 (* One batch.Put(h, node.rlp()): the blob of the cached node reaches the disk with its references. *)
-Definition put (c d : nodes) (h : hash) : nodes :=
-  match c !! h with Some cs => <[h := cs]> d | None => d end.
-Definition put_all (c d : nodes) (seq : list hash) : nodes := foldl (put c) d seq.
+Definition put (c : dirty) (d : nodes) (h : hash) : nodes :=
+  match c !! h with Some n => <[h := refs n]> d | None => d end.
+Definition put_all (c : dirty) (d : nodes) (seq : list hash) : nodes := foldl (put c) d seq.
 
 (* The disk after a crash that let the first k puts through. *)
 Definition crash (s : store) (seq : list hash) (k : nat) : nodes :=
@@ -67,7 +74,7 @@ Fixpoint batch_run (limit : N) (size : hash → N) (seq cur : list hash) (acc : 
   end.
 
 (* NodeDatabase.uncache after the last Write succeeded: the same walk, deleting what it visits. *)
-Definition uncache (c : nodes) (seq : list hash) : nodes := foldr delete c seq.
+Definition uncache (c : dirty) (seq : list hash) : dirty := foldr delete c seq.
 Definition after_commit (s : store) (seq : list hash) : store :=
   Store (put_all (cache s) (disk s) seq) (uncache (cache s) seq).
 
@@ -80,23 +87,23 @@ Fixpoint flatten (t : tree) : list hash :=
   | TNode h kids => concat (map flatten kids) ++ [h]
   end.
 
-Inductive tree_ok (c : nodes) : tree → Prop :=
+Inductive tree_ok (c : dirty) : tree → Prop :=
 | ok_skip h : c !! h = None → tree_ok c (TSkip h)
-| ok_node h cs kids :
-    c !! h = Some cs → map troot kids ≡ₚ cs → Forall (tree_ok c) kids → tree_ok c (TNode h kids).
+| ok_node h n kids :
+    c !! h = Some n → map troot kids ≡ₚ tracked n → Forall (tree_ok c) kids → tree_ok c (TNode h kids).
 
-Fixpoint tree_okb (c : nodes) (t : tree) : bool :=
+Fixpoint tree_okb (c : dirty) (t : tree) : bool :=
   match t with
   | TSkip h => bool_decide (c !! h = None)
   | TNode h kids =>
     match c !! h with
-    | Some cs => bool_decide (map troot kids ≡ₚ cs)
+    | Some n => bool_decide (map troot kids ≡ₚ tracked n)
     | None => false
     end && forallb (tree_okb c) kids
   end.
 
 (* seq is a put sequence that commit(r) can produce on dirty cache c *)
-Definition run (c : nodes) (r : hash) (seq : list hash) : Prop :=
+Definition run (c : dirty) (r : hash) (seq : list hash) : Prop :=
   ∃ t, tree_ok c t ∧ troot t = r ∧ flatten t = seq.
 
 (* ---------- predicates of the property ---------- *)
@@ -105,20 +112,22 @@ Definition closed (d : nodes) : Prop :=
   map_Forall (λ _ cs, Forall (λ x, is_Some (d !! x)) cs) d.
 Global Instance closed_dec d : Decision (closed d) := _.
 
-(* every reference of a dirty node is dirty or already on disk *)
+(* every reference inside a dirty node's blob is already on disk, or is a tracked child that is
+   itself dirty (so the walk will write it first) *)
 Definition cache_closed (s : store) : Prop :=
-  map_Forall (λ _ cs, Forall (λ x, is_Some (cache s !! x) ∨ is_Some (disk s !! x)) cs) (cache s).
+  map_Forall (λ _ n, Forall (λ x, is_Some (disk s !! x) ∨ (x ∈ tracked n ∧ is_Some (cache s !! x))) (refs n))
+             (cache s).
 Global Instance cache_closed_dec s : Decision (cache_closed s) := _.
 
 (* hash addressing: the same hash never names two different blobs *)
 Definition consistent (s : store) : Prop :=
-  map_Forall (λ h a, match cache s !! h with Some b => a = b | None => True end) (disk s).
+  map_Forall (λ h a, match cache s !! h with Some n => a = refs n | None => True end) (disk s).
 Global Instance consistent_dec s : Decision (consistent s).
 Proof. apply map_Forall_dec. intros h a. destruct (cache s !! h); apply _. Defined.
 
 (* hash addressing also rules out reference cycles (a blob contains its children's hashes) *)
-Definition acyclic (c : nodes) : Prop :=
-  ∃ rank : hash → nat, ∀ h cs x, c !! h = Some cs → x ∈ cs → is_Some (c !! x) → rank x < rank h.
+Definition acyclic (c : dirty) : Prop :=
+  ∃ rank : hash → nat, ∀ h n x, c !! h = Some n → x ∈ tracked n → is_Some (c !! x) → rank x < rank h.
 
 Inductive reach (d : nodes) : hash → hash → Prop :=
 | reach_here r : reach d r r
@@ -128,18 +137,18 @@ Inductive reach (d : nodes) : hash → hash → Prop :=
 Definition resolvable (d : nodes) (r : hash) : Prop := ∀ h, reach d r h → is_Some (d !! h).
 
 (* put sequence in which every node's references are present when it is put *)
-Fixpoint ordered (c d : nodes) (seq : list hash) : Prop :=
+Fixpoint ordered (c : dirty) (d : nodes) (seq : list hash) : Prop :=
   match seq with
   | [] => True
-  | h :: tl => (∃ cs, c !! h = Some cs ∧ Forall (λ x, is_Some (d !! x)) cs) ∧ ordered c (put c d h) tl
+  | h :: tl => (∃ n, c !! h = Some n ∧ Forall (λ x, is_Some (d !! x)) (refs n)) ∧ ordered c (put c d h) tl
   end.
 
-Fixpoint orderedb (c d : nodes) (seq : list hash) : bool :=
+Fixpoint orderedb (c : dirty) (d : nodes) (seq : list hash) : bool :=
   match seq with
   | [] => true
   | h :: tl =>
     match c !! h with
-    | Some cs => forallb (λ x, bool_decide (is_Some (d !! x))) cs
+    | Some n => forallb (λ x, bool_decide (is_Some (d !! x))) (refs n)
     | None => false
     end && orderedb c (put c d h) tl
   end.
